@@ -90,6 +90,7 @@ def run(run, ix, tier):
                 run.fail(Finding('H-C04', CTXPY, '_mpc.__eq__', norm(x),
                                  'equality decided by a shortcut that is not exact componentwise '
                                  'comparison', line=x.lineno))
+    check_mpc_eq_operand(run, ix, 'H-C04')
     # fadd/fsub/fmul: kernels receive the parsed pair
     for name in ('fadd', 'fsub', 'fmul'):
         f = ix.func('mpmath/ctx_mp.py', 'MPContext.%s' % name)
@@ -112,3 +113,44 @@ def run(run, ix, tier):
                     run.fail(Finding('B-R3t', f.file, f.qualname, norm(x),
                                      'kernel does not receive the parsed (prec, rounding)',
                                      line=x.lineno))
+
+
+def check_mpc_eq_operand(run, ix, rule):
+    """the other operand of _mpc.__eq__ reaches the componentwise comparison only through the
+    exact conversion (mpc_convert_lhs -> context.convert); a number-class constructor
+    (context.mpc(..), context.mpf(..)), unary plus or a rounding kernel in between rounds it to the
+    working precision and makes equality inexact"""
+    f = ix.func(CTXPY, '_mpc.__eq__')
+    s, t = f.params[:2]
+    for x in _walk_own(f.node):
+        if isinstance(x, ast.Assign) and any(norm(tg) == t for tg in x.targets):
+            v = norm(x.value)
+            if v == '%s.mpc_convert_lhs(%s)' % (s, t):
+                run.ok(rule, '_mpc.__eq__: operand converted by mpc_convert_lhs')
+            else:
+                run.fail(Finding(rule, CTXPY, '_mpc.__eq__', norm(x),
+                                 'the other operand is rebuilt with `%s` before the comparison: anything but '
+                                 'the exact conversion rounds it to the working precision, so complex equality '
+                                 'is no longer exact' % v, line=x.lineno))
+        if isinstance(x, ast.UnaryOp) and isinstance(x.op, ast.UAdd):
+            run.fail(Finding(rule, CTXPY, '_mpc.__eq__', norm(x), 'unary plus rounds an operand of the '
+                             'comparison', line=x.lineno))
+    g = ix.func(CTXPY, '_mpc.mpc_convert_lhs')
+    rets = [r for r in _walk_own(g.node) if isinstance(r, ast.Return)]
+    defs = {}
+    for x in _walk_own(g.node):
+        if isinstance(x, ast.Assign) and isinstance(x.targets[0], ast.Name):
+            defs[x.targets[0].id] = x.value
+    for r in rets:
+        v = r.value
+        if isinstance(v, ast.Name) and v.id in defs:
+            v = defs[v.id]
+        txt = norm(v)
+        if txt == 'NotImplemented':
+            run.ok(rule)
+        elif txt == 'cls.context.convert(%s)' % g.params[1]:
+            run.ok(rule, 'mpc_convert_lhs = context.convert (lossless)')
+        else:
+            run.fail(Finding(rule, CTXPY, '_mpc.mpc_convert_lhs', norm(r),
+                             'operands of complex comparisons are not converted with the lossless '
+                             'context.convert (got `%s`)' % txt, line=r.lineno))
